@@ -13,8 +13,8 @@
        forall e tr evs, impl_select e tr evs = spec_select e tr evs
    is FALSE for the code as it is (C02_cmp_refuted_*, C02_not_complement_refuted); what holds
    is the guarded form with the boolean guards cmp_guard / expr_guard. *)
-From SigM Require Import Base Dte Filter.
-From SigP Require Import BaseProofs DteProofs FilterProofs.
+From SigM Require Import Base Dte Filter FilterPlan.
+From SigP Require Import BaseProofs DteProofs FilterProofs FilterPlanProofs.
 From Coq Require Import QArith.
 Open Scope Z_scope.
 
@@ -163,6 +163,104 @@ Theorem C02_expr_guard_satisfiable :
   expr_guard false e ev = true /\ ev_wf ev = true /\ expr_wf e = true /\ spec_eval e ev = false.
 Proof. exact expr_guard_satisfiable. Qed.
 Print Assumptions C02_expr_guard_satisfiable.
+
+(* ---- all-column comparisons (free-text number N = `*=N`, `*<N`, ...) and the block / column plan ---- *)
+(* AAny o l: "some field of the event satisfies  field o l".  It is covered by C02_select_exact_guarded (guard: every
+   field inside cmp_guard, not under a NOT).  Under a NOT deMorgansLaw flips the operator of the terminal, which is
+   again evaluated as "some field ...": FULL STATEMENT (false) NOT a is the complement of a; witness {a:404, b:1} is
+   returned by `404` and by `NOT 404` (reproduced on the real system: known class negated_allcolumn_number). *)
+Theorem C02_not_allcolumn_refuted :
+  exists a tr evs ev, In ev evs /\ In ev (impl_select a tr evs) /\ In ev (impl_select (ENot a) tr evs).
+Proof. exact not_allcolumn_refuted. Qed.
+Print Assumptions C02_not_allcolumn_refuted.
+
+Theorem C02_allcolumn_guard_satisfiable :
+  let e := EOr (EAtom (AAny Eq (LNum (NLInt 404)))) (EAtom (AAny Eq (LNum (NLInt 500)))) in
+  let ev := mkEv 1%N 11 [(0%N, SInt 1); (1%N, SInt 200); (2%N, SInt 500); (3%N, SStr [97]%N)] in
+  expr_guard false e ev = true /\ ev_wf ev = true /\ expr_wf e = true /\ spec_eval e ev = true.
+Proof. repeat split; vm_compute; reflexivity. Qed.
+Print Assumptions C02_allcolumn_guard_satisfiable.
+
+(* the state machine with an all-column comparison restricted to a list of candidate columns *)
+Theorem C02_search_state_machine_pointwise_cols : forall cs tr e evs,
+  exec_in cs tr e evs = map (fun ev => check_in_range tr (ev_ts ev) && peval_in cs e ev) evs.
+Proof. exact exec_in_pointwise. Qed.
+Print Assumptions C02_search_state_machine_pointwise_cols.
+
+(* SegmentSearchRequest.JoinRequest as a map operation: AND keeps the blocks both operands kept, OR keeps the blocks of
+   either; the candidate columns (CmiPassedCnames) of a block both kept are united in both cases *)
+Theorem C02_join_and_blocks_columns : forall b p q,
+  lookup_b b (join_and p q) =
+  match lookup_b b p, lookup_b b q with
+  | Some a, Some c => Some (union_cols a c)
+  | _, _ => None
+  end.
+Proof. exact lookup_join_and. Qed.
+Print Assumptions C02_join_and_blocks_columns.
+
+Theorem C02_join_or_blocks_columns : forall b p q,
+  lookup_b b (join_or p q) =
+  match lookup_b b p, lookup_b b q with
+  | Some a, Some c => Some (union_cols a c)
+  | Some a, None => Some a
+  | None, o => o
+  end.
+Proof. exact lookup_join_or. Qed.
+Print Assumptions C02_join_or_blocks_columns.
+
+Theorem C02_union_cols_is_union : forall c a b, mem_col c (union_cols a b) = mem_col c a || mem_col c b.
+Proof. exact mem_col_union. Qed.
+Print Assumptions C02_union_cols_is_union.
+
+(* MAIN (planning layer): for EVERY expression, time range and block layout (distinct block numbers), and every
+   micro-index check that is sound for the leaves of the expression on the blocks (a dropped block holds no record the
+   leaf matches; the columns that passed suffice for the leaf -- discharged for range entries and blooms by C03), the
+   search that (1) builds one block -> columns plan per leaf (time filter + micro index), (2) merges the plans through
+   the AND / OR tree with JoinRequest (first request of a file taken as is), (3) runs the whole tree on each block of the
+   merged plan with all-column comparisons reading only the block's candidate columns, selects exactly the records the
+   unplanned record-level search selects from all records.  With C02_select_exact_guarded this is the specification. *)
+Theorem C02_plan_select_exact : forall cmi e tr blks,
+  NoDup (map fst blks) ->
+  (forall a, In a (leaves (push_not false e)) -> forall nb, In nb blks -> cmi_sound_on cmi a (snd nb)) ->
+  plan_select cmi e tr blks = impl_select e tr (all_events blks).
+Proof. exact plan_select_exact. Qed.
+Print Assumptions C02_plan_select_exact.
+
+(* A OR B / A AND B of the PLANNED search = union / intersection of the planned results of A and of B *)
+Theorem C02_plan_or_is_union : forall cmi a b tr blks ev,
+  NoDup (map fst blks) ->
+  (forall x, In x (leaves (push_not false a) ++ leaves (push_not false b)) -> forall nb, In nb blks -> cmi_sound_on cmi x (snd nb)) ->
+  (In ev (plan_select cmi (EOr a b) tr blks) <-> In ev (plan_select cmi a tr blks) \/ In ev (plan_select cmi b tr blks)).
+Proof. exact plan_or_is_union. Qed.
+Print Assumptions C02_plan_or_is_union.
+
+Theorem C02_plan_and_is_intersection : forall cmi a b tr blks ev,
+  NoDup (map fst blks) ->
+  (forall x, In x (leaves (push_not false a) ++ leaves (push_not false b)) -> forall nb, In nb blks -> cmi_sound_on cmi x (snd nb)) ->
+  (In ev (plan_select cmi (EAnd a b) tr blks) <-> In ev (plan_select cmi a tr blks) /\ In ev (plan_select cmi b tr blks)).
+Proof. exact plan_and_is_intersection. Qed.
+Print Assumptions C02_plan_and_is_intersection.
+
+(* non-vacuity, and why the union of the candidate columns is needed: one block, 404 only in column 1, 500 only in
+   column 2; the leaf plans are {0:[1]} and {0:[2]}, JoinRequest gives {0:[1;2]} and `404 OR 500` returns both records;
+   a merge that keeps the receiver's columns of a block both operands kept loses the record that matches through column 2 *)
+Theorem C02_plan_union_needed :
+  let tr := mkTr 0 100 in
+  let pa := leaf_plan cmi_model tr (AAny Eq (LNum (NLInt 404))) [(0%N, ex_blk)] in
+  let pb := leaf_plan cmi_model tr (AAny Eq (LNum (NLInt 500))) [(0%N, ex_blk)] in
+  pa = Some [(0%N, [1%N])] /\ pb = Some [(0%N, [2%N])] /\
+  join_file LOr pa pb = Some [(0%N, [1%N; 2%N])] /\
+  ids (plan_select cmi_model ex_e tr [(0%N, ex_blk)]) = [0%N; 1%N] /\
+  ids (impl_select ex_e tr ex_blk) = [0%N; 1%N] /\
+  ids (pick ex_blk (exec_in (lookup_b 0%N (join_or_keep [(0%N, [1%N])] [(0%N, [2%N])])) tr (push_not false ex_e) ex_blk)) = [0%N].
+Proof. exact plan_union_needed. Qed.
+Print Assumptions C02_plan_union_needed.
+
+(* a range entry [mn, mx] that holds a value satisfying the comparison passes does{Int,Uint}PassRangeFilter (all six operators) *)
+Theorem C02_range_entry_pass_sound : forall o l mn mx v,
+  mn <= v <= mx -> zcmp o v l = true -> pass_z o l mn mx = true.
+Proof. exact pass_z_sound. Qed.
+Print Assumptions C02_range_entry_pass_sound.
 
 (* ---- time range ---- *)
 Theorem C02_time_range_exact : forall tr ts,
